@@ -1,4 +1,5 @@
 import QbiceVerif.Lemmas.WriteBehindNotify
+import QbiceVerif.Lemmas.WriteBehindMono
 
 /-!
 # C10 — write-behind applies every batch exactly once, in order, by shutdown
@@ -110,6 +111,30 @@ theorem final_content (hr : Reachable nSer s) (hd : s.dpc = .returned)
     simpa using this
   rw [store_eq_seqSpec h, hlen]
 
+/-- Durability is stable ("reaches the backing store exactly once"): whatever the pipeline does
+after a reachable state `s` — any further schedule `evs` of user, serializer, commit-worker and
+shutdown events — the batches applied at `s` stay applied, at the same positions of the commit
+order and with the same serialized contents; later commits are only appended; the submitted list
+and the epoch counter only grow; and the later state is again a state of the pipeline, so every
+theorem above holds there too. -/
+theorem durable_is_stable {s' : State} {evs : List Event} (hr : Reachable nSer s)
+    (h : run s evs = some s') :
+    Reachable nSer s' ∧ s.log <+: s'.log ∧ s.applied <+: s'.applied ∧
+    (∀ (i : Nat) (t : Task), s.applied[i]? = some t → s'.applied[i]? = some t) ∧
+    s.submitted <+: s'.submitted ∧ s.counter ≤ s'.counter := by
+  obtain ⟨hl, hs, hc⟩ := run_mono h
+  have ha : s.applied <+: s'.applied := flatten_prefix hl
+  refine ⟨run_reachable hr evs h, hl, ha, ?_, hs, hc⟩
+  intro i t hi
+  obtain ⟨r, hr'⟩ := ha
+  rw [← hr']
+  have hlt : i < s.applied.length := by
+    rcases Nat.lt_or_ge i s.applied.length with h1 | h1
+    · exact h1
+    · rw [List.getElem?_eq_none h1] at hi; cases hi
+  rw [List.getElem?_append_left hlt]
+  exact hi
+
 /-- Writes of one logical batch touch pairwise distinct store keys (the batch is a set of hash maps),
 so the hash-map iteration order inside a batch is irrelevant. -/
 theorem within_batch_commutes {l₁ l₂ : List WOp} (hp : l₁.Perm l₂) (hn : (l₁.map WOp.key).Nodup)
@@ -219,6 +244,12 @@ example : ∃ s, run (init 2) sched1 = some s ∧ s.dpc = .returned ∧
     (∀ e, e < s.counter → e ∈ s.submitted.map Task.epoch) ∧
     s.log.map (·.map Task.epoch) = [[0], [1, 2]] ∧ s.store (k 1) = some 12 ∧ s.store (k 2) = none :=
   ⟨_, rfl, rfl, by decide, rfl, rfl, rfl⟩
+
+/-- `durable_is_stable` is not vacuous: cut `sched1` after the first physical commit; one batch is
+applied at the cut, three at the end, and the first one is still the same batch. -/
+example : ∃ s s', run (init 2) (sched1.take 23) = some s ∧ run s (sched1.drop 23) = some s' ∧
+    s.applied.map Task.epoch = [0] ∧ s'.applied.map Task.epoch = [0, 1, 2] :=
+  ⟨_, _, rfl, rfl, rfl, rfl⟩
 
 example : ∃ s, Reachable 2 s ∧ s.dpc = .returned :=
   ⟨_, run_reachable .init sched1 rfl, rfl⟩
